@@ -109,6 +109,13 @@ def gen_hist_case(rng, max_n=6, max_ops=7):
     case["maxc"] = rng.randint(1, 3)
     case["none_ret"] = [i for i in range(n) if rng.random() < 0.15]
     case["is_async"] = rng.random() < 0.3
+    br = random.Random(rng.getrandbits(30))
+    if edges and br.random() < 0.12:
+        # the describing function indexes one result out of range: every run that reaches the consumer fails while the
+        # scheduler resolves its arguments (not inside a node function)
+        j_, i_ = br.choice(edges)
+        if i_ not in case["setup"] and j_ not in case.get("none_ret", []):
+            case["bad_index"] = [j_, i_]
     return case
 
 
@@ -159,6 +166,8 @@ CORPUS = [
     _chain_case(3, [[0, 2], [1, 2]], [dict(kind="setup", target=[1], exclude=None, root=None), dict(kind="setup", target=None, exclude=None, root=None)], setup=[0, 1], is_async=True),
     # creating an executor with targets AND exclusions (accepted or refused) leaves the DAG alone
     _chain_case(4, [[0, 1], [1, 2], [0, 3]], [_ex(target=[3], exclude=[1]), dict(kind="call", args=[], run_debug=False), _ex(target=[2], exclude=[1]), dict(kind="call", args=[], run_debug=False)]),
+    # a run that fails while the scheduler resolves an argument (index out of range), then the same executor again
+    _chain_case(4, [[0, 1], [1, 2], [0, 3]], [dict(kind="fail", args=[], node=3, via="exec", again=True, again_args=[]), dict(kind="call", args=[], run_debug=False)], bad_index=[1, 2]),
     # one path rewritten between two restarts
     _chain_case(3, [[0, 1], [1, 2]], [_ex(target=[1], cache_in=True), _ex(from_cache=0), _ex(cache_in=True), _ex(from_cache=2)]),
 ]
@@ -183,7 +192,8 @@ def build(case):
     def desc(*params):
         v = {}
         for i in range(n):
-            args = [v[j] for j in range(i) if (j, i) in eset]
+            bi = case.get("bad_index")
+            args = [(v[j][9] if bi and bi == [j, i] else v[j]) for j in range(i) if (j, i) in eset]
             if case["consts"].get(str(i)):
                 args.append(7)
             for pj in case["param_use"].get(str(i), []):
@@ -382,6 +392,16 @@ def run_history(case, tmpdir):
     st_f, ex_f, _, _ = run_op(fresh, lambda: fresh(*case["final_args"]))
     final = dict(status=st[0], value=st[1] if st[0] == "ok" else None, fresh_status=st_f[0], fresh_value=st_f[1] if st_f[0] == "ok" else None,
                  error=None if st[0] == "ok" else "%s: %s" % (type(st[1]).__name__, str(st[1])[:150]))
+    # the instance's own tables (priorities, compound priorities, debug / setup flags) are those of a fresh build
+    try:
+        tc_, tf_ = kgraph.impl_tables(cur), kgraph.impl_tables(fresh)
+        has_config = any(o_["kind"] == "config" for o_ in case["ops"])
+        final["tables_differ"] = [k_ for k_ in (("debug", "setup") if has_config else ("prio", "cp", "debug", "setup")) if tc_[k_] != tf_[k_]]
+        if final["tables_differ"]:
+            k0 = final["tables_differ"][0]
+            final["tables_detail"] = "%s: %r, freshly built %r" % (k0, tc_[k0], tf_[k0])
+    except BaseException as e:  # noqa: BLE001
+        final["tables_differ"] = ["<unreadable: %s>" % type(e).__name__]
     # deep copies have independent setup state: what happened on a copy left the original untouched
     final["shared"] = []
     for orig, done_at_copy in originals:
@@ -522,6 +542,9 @@ def run(pid, tier, seed, res, only=None):
                 res.hit("C15", "monitor", "operation %d (%s) raised %s" % (oi, o["op"]["kind"], o.get("error")), dict(base, kind="monitor", op_index=oi))
         for a_, b_ in final.get("shared", []):
             res.hit("C11", "monitor", "operations on a deep copy changed the setup results of the original (%s -> %s)" % (a_, b_), dict(base, kind="monitor"))
+        if final.get("tables_differ"):
+            for p_ in ("C15", "C07"):
+                res.hit(p_, "monitor", "after the history the instance's tables differ from those of a freshly built DAG (%s)" % final.get("tables_detail", final["tables_differ"]), dict(base, kind="monitor"))
         # C15: the final call equals the call on a fresh instance
         if (final["status"], final["value"]) != (final["fresh_status"], final["fresh_value"]):
             res.hit("C15", "monitor", "after the history the call returns %r (%s), a freshly built DAG returns %r" % (final["value"], final["error"], final["fresh_value"]), dict(base, kind="monitor"))
